@@ -746,11 +746,11 @@ pub fn parsers() -> Vec<Parser> {
     )* } }
     strat!(0, 1, 2, 3, 4, 5, 6);
     v.extend(vec![
-        P!("SliceDataInput/read_length_prefixed_bytes", 0, false, true, p_sdi_lp_bytes, seeds_lp),
+        P!("SliceDataInput/read_length_prefixed_bytes", 50, false, true, p_sdi_lp_bytes, seeds_lp),
         P!("SliceDataInput/read_length_prefixed_string", 0, false, true, p_sdi_lp_string, seeds_lp),
-        P!("SliceDataInput/var_int+skip+read_u8", 0, false, true, p_sdi_skip, seeds_sdi_skip),
+        P!("SliceDataInput/var_int+skip+read_u8", 51, false, true, p_sdi_skip, seeds_sdi_skip),
         P!("SliceDataInput/fixed_width_reads", 0, false, true, p_sdi_fixed, seeds_sdi_fixed),
-        P!("SerializableType/Vec<u32>", 0, false, true, p_ser_vec_u32, seeds_ser_vec_u32),
+        P!("SerializableType/Vec<u32>", 52, false, true, p_ser_vec_u32, seeds_ser_vec_u32),
         P!("SerializableType/Vec<Vec<String>>", 0, false, true, p_ser_vecvec, seeds_ser_vecvec),
         P!("ComplexTypeSerializer/tuple/metadata", 0, false, false, p_cx_tuple::<true>, seeds_cx_tuple::<true>),
         P!("ComplexTypeSerializer/tuple/fast", 0, false, true, p_cx_tuple::<false>, seeds_cx_tuple::<false>),
